@@ -14,7 +14,8 @@ PROP = "C18"
 RULE = (
     "the C04 tree generator with a known subset of include directives made dangling (quote, angle and computed; reached "
     "and unreached; in headers included once or several times; several translation units and platforms) plus unknown "
-    "directives (#foo..., and the exempt #line/#warning/#error), compilation-database entries for missing files, unknown "
+    "directives (#foo..., and the exempt #line/#warning/#error), compilation-database entries for missing files (absolute, and relative to an absolute / relative / absent "
+    "'directory' while a file of the same relative name exists below another base such as the code-base root), unknown "
     "compilers and unknown flags; databases are loaded with config.load_database and analysed with finder.find while all "
     "WARNING records of the 'codebasin' logger are captured. Oracle: the reference preprocessor model's multiset of "
     "events (one per evaluation of a dangling include with file, line, name and form; every reached unknown directive "
@@ -33,6 +34,47 @@ UNKNOWN_FLAGS = ["-Wall", "-fPIC", "-std=c99", "-pthread", "-march=native", "-We
                  # a response file and an option whose value holds a blank (argparse would hand them to the positional)
                  "@opts.rsp", "-iquotemy inc"]
 DANGLING = ["nope.h", "sub/missing.h", "gone.hpp"]
+# directories (relative to the scratch root) in which a database command may claim to run; "cb/build" and
+# "cb/out/obj" are never created
+ENTRY_DIRS = ["cb", "cb/src", "cb/src/sub", "cb/inc1", "cb/inc2", "cb/sys1", "ext", "cb/build", "cb/out/obj"]
+
+
+def shadowed_missing_entries(tree, cbroot):
+    """Database entries with a *relative* 'file' that does not exist in the directory the entry runs in
+    ('directory' absolute, relative to the code-base root, or absent), although a file of that very
+    relative name exists below some other base: the code-base root, the directory holding the database,
+    a parent of the real file. Each must be reported as missing; none may be redirected to the namesake."""
+    from hypothesis import strategies as st
+
+    files = sorted(tree)
+
+    @st.composite
+    def entry(draw):
+        f = draw(st.sampled_from(files))
+        parts = f.split("/")
+        # the base below which the drawn name does exist: "" is the scratch root (where the databases are written)
+        cut = draw(st.sampled_from([1, 1] + list(range(len(parts)))))
+        cut = min(cut, len(parts) - 1)
+        name = "/".join(parts[cut:])
+        form = draw(st.sampled_from(["abs", "rel", "rel", "none"]))
+        d = cbroot if form == "none" else draw(st.sampled_from(ENTRY_DIRS))
+        if os.path.normpath(os.path.join(d, name)) in tree:
+            # the entry would be valid: move it to a directory that is never created
+            d, form = "cb/build", ("rel" if form == "none" else form)
+        return {"dir": d, "form": form, "file": name}
+
+    return st.lists(entry(), max_size=2)
+
+
+def entry_directory(e, root, cbroot_abs):
+    """The 'directory' spelling of a relative bad entry (None: the member is left out) and the absolute
+    path of the directory it names."""
+    dabs = os.path.join(root, e["dir"])
+    if e["form"] == "abs":
+        return dabs, dabs
+    if e["form"] == "rel":
+        return os.path.relpath(dabs, cbroot_abs), dabs
+    return None, cbroot_abs
 
 
 def unknown_strategy():
@@ -73,6 +115,9 @@ def case_strategy():
                 cmd["cwd"] = c["cbroot"]  # the databases below run every command in the code-base root
                 if draw(st.integers(0, 5)) == 0:
                     cmd["forced"] = list(cmd.get("forced", [])) + ["nowhere_forced.h"]
+        # missing-file entries spelled relatively, with a namesake elsewhere in the tree
+        for pname in c["platforms"]:
+            c.setdefault("rel_bad_entries", {})[pname] = draw(shadowed_missing_entries(c["tree"], c["cbroot"])) if draw(st.integers(0, 2)) == 0 else []
         c["via_argparser"] = False
         return c
 
@@ -105,7 +150,17 @@ def build_db(case, root, pname):
         db.append({"directory": os.path.join(root, case["cbroot"]), "file": os.path.join(root, cmd["file"]), "arguments": argv})
     for bad in case.get("bad_entries", {}).get(pname, []):
         db.append({"directory": os.path.join(root, case["cbroot"]), "file": os.path.join(root, bad), "arguments": ["gcc", "-c", os.path.join(root, bad)]})
-    return db
+    rel_entries = []
+    for e in case.get("rel_bad_entries", {}).get(pname, []):
+        spelled, dabs = entry_directory(e, root, os.path.join(root, case["cbroot"]))
+        if os.path.isfile(os.path.join(dabs, e["file"])):
+            continue  # the operating system finds the file: not a missing-file entry (the generator avoids this)
+        ent = {"file": e["file"], "arguments": ["gcc", "-c", e["file"]]}
+        if spelled is not None:
+            ent["directory"] = spelled
+        rel_entries.append(ent)
+    # interleaved: the first goes before the valid entries, the others after
+    return rel_entries[:1] + db + rel_entries[1:]
 
 
 def expected_events(case, root, layouts, counted):
@@ -154,6 +209,7 @@ def check_case(case, res: Result):
         exp_nofile = collections.Counter()
         exp_compiler = collections.Counter()
         exp_flags = collections.Counter()
+        n_rel_bad = n_shadowed = 0
         dbs = {}
         for pname in case["platforms"]:
             dbs[pname] = build_db(case, root, pname)
@@ -165,6 +221,14 @@ def check_case(case, res: Result):
                     exp_flags[" ".join(sorted(" ".join(cmd["unknown_flags"]).split()))] += 1  # order within one warning is not promised
             for bad in case.get("bad_entries", {}).get(pname, []):
                 exp_nofile[os.path.join(root, bad)] += 1
+            for e in case.get("rel_bad_entries", {}).get(pname, []):
+                _, dabs = entry_directory(e, root, cbroot)
+                if os.path.isfile(os.path.join(dabs, e["file"])):
+                    continue
+                # what the entry names for the operating system (no symbolic links in these trees)
+                exp_nofile[os.path.normpath(os.path.join(dabs, e["file"]))] += 1
+                n_rel_bad += 1
+                n_shadowed += os.path.isfile(os.path.join(cbroot, e["file"])) and os.path.normpath(dabs) != cbroot
         cap = Capture()
         old_level, old_disable = log.level, logging.root.manager.disable
         logging.disable(logging.NOTSET)
@@ -214,7 +278,7 @@ def check_case(case, res: Result):
                 continue
             m = re.match(r"^Ignoring non-existent file: (.*)$", msg)
             if m:
-                got_nofile[m.group(1)] += 1
+                got_nofile[os.path.normpath(m.group(1)) if os.path.isabs(m.group(1)) else m.group(1)] += 1
                 continue
             m = re.match(r"^Compiler '(.*)' not recognized\.$", msg)
             if m:
@@ -253,10 +317,11 @@ def check_case(case, res: Result):
         forms = {k[3] for k in missing}
         nt = (any(n >= 2 for n in missing.values()) or len(forms) == 2) and nhon >= 1
         res.case(
-            key=[texts, dbs and {k: [(os.path.relpath(e["file"], root), [a.replace(root, "") for a in e["arguments"]]) for e in v] for k, v in dbs.items()}],
+            key=[texts, dbs and {k: [(e.get("directory", "-").replace(root, ""), e["file"].replace(root, ""), [a.replace(root, "") for a in e["arguments"]]) for e in v] for k, v in dbs.items()}],
             nontrivial=nt,
             sample={"files": {k: v for k, v in texts.items() if "main" in k or "other" in k}, "expected_missing": sorted((rel(k), n) for k, n in missing.items()), "unknown_flags": sorted(exp_flags), "unknown_compilers": sorted(exp_compiler)} if nt else None,
-            labels=[f"missing-events={min(sum(missing.values()),6)}", f"unknown-reached={min(len(unk_reached),3)}", "clean" if not (missing or unk_all or exp_nofile or exp_compiler or exp_flags) else "dirty"],
+            labels=[f"missing-events={min(sum(missing.values()),6)}", f"unknown-reached={min(len(unk_reached),3)}", "clean" if not (missing or unk_all or exp_nofile or exp_compiler or exp_flags) else "dirty"]
+            + ([f"relative-missing-entry={min(n_rel_bad, 3)}"] if n_rel_bad else []) + (["missing-entry-shadowed-by-root-file"] if n_shadowed else []),
         )
     return vs
 
